@@ -20,7 +20,7 @@ func init() {
 		Explain: "Decides shape agreement, not value equality: for every type that has both encode and decode and for every protocol version 0..max+1 mentioned in its code, the language of wire-token sequences its encoder can emit is included in the language its decoder accepts — automata are built from the SSA control-flow graphs, nested encode/decode calls spliced in, version branches evaluated, data branches non-deterministic (C09.mirror); push/pop are balanced on every successful path (C09.balance); allocateBody maps every key to a type with that key and every sendAndReceive pairs a request and a response of the same API key (C09.keys); " +
 			"for every put* method the sizing pass (prepEncoder) and the writing pass (realEncoder) account for the same number of bytes, compared as symbolic linear forms per argument condition (C09.prep-real); length and CRC fields are written and checked over the same byte range with the same polynomial per container (C09.crc-len, the polynomial via C09.mirror tokens). " +
 			"NOT covered: value-level equality (which bytes), compression codecs, varint arithmetic, agreement with the Kafka specification itself.",
-		Rules: []func(*Ctx){c09Mirror, c09Balance, c09Keys, c09PrepReal, c09CrcLen},
+		Rules: []func(*Ctx){c09Mirror, c09Order, c09Balance, c09Keys, c09PrepReal, c09CrcLen},
 	})
 }
 
@@ -447,5 +447,232 @@ func c09PrepReal(c *Ctx) {
 		}
 		a, b := render(ps), render(rs)
 		c.Check(a == b && a != "", rule, pf, "size:"+n, nil, "both passes: "+a, "sizing pass and writing pass disagree for "+n+": prepEncoder counts {"+a+"}, realEncoder writes {"+b+"}: the buffer is too small (panic in the writing pass) or has trailing garbage", nil)
+	}
+}
+
+// ---------------------------------------------------------------- C09.order (field alignment)
+
+type fieldOp struct {
+	field string
+	in    ssa.Instruction
+}
+
+// rootFieldOf: the top-level field of `recv` that value v is derived from (through loads, indexing,
+// len(), conversions, range elements), "" if none.
+func rootFieldOf(v ssa.Value, recv ssa.Value, depth int) string {
+	if depth > 8 || v == nil {
+		return ""
+	}
+	switch x := v.(type) {
+	case *ssa.FieldAddr:
+		if x.X == recv {
+			st := x.X.Type().Underlying().(*types.Pointer).Elem().Underlying().(*types.Struct)
+			return st.Field(x.Field).Name()
+		}
+		return rootFieldOf(x.X, recv, depth+1)
+	case *ssa.Field:
+		return rootFieldOf(x.X, recv, depth+1)
+	case *ssa.UnOp:
+		return rootFieldOf(x.X, recv, depth+1)
+	case *ssa.IndexAddr:
+		return rootFieldOf(x.X, recv, depth+1)
+	case *ssa.Index:
+		return rootFieldOf(x.X, recv, depth+1)
+	case *ssa.Lookup:
+		return rootFieldOf(x.X, recv, depth+1)
+	case *ssa.Convert:
+		return rootFieldOf(x.X, recv, depth+1)
+	case *ssa.ChangeType:
+		return rootFieldOf(x.X, recv, depth+1)
+	case *ssa.MakeInterface:
+		return rootFieldOf(x.X, recv, depth+1)
+	case *ssa.Slice:
+		return rootFieldOf(x.X, recv, depth+1)
+	case *ssa.Extract:
+		return rootFieldOf(x.Tuple, recv, depth+1)
+	case *ssa.Next:
+		return rootFieldOf(x.Iter, recv, depth+1)
+	case *ssa.Range:
+		return rootFieldOf(x.X, recv, depth+1)
+	case *ssa.BinOp:
+		if f := rootFieldOf(x.X, recv, depth+1); f != "" {
+			return f
+		}
+		return rootFieldOf(x.Y, recv, depth+1)
+	case *ssa.Call:
+		if b, ok := x.Call.Value.(*ssa.Builtin); ok && b.Name() == "len" {
+			return rootFieldOf(x.Call.Args[0], recv, depth+1)
+		}
+		// value methods on a field (e.g. r.ThrottleTime / time conversions, Timestamp{…})
+		for _, a := range x.Call.Args {
+			if f := rootFieldOf(a, recv, depth+1); f != "" {
+				return f
+			}
+		}
+	case *ssa.Phi:
+		for _, e := range x.Edges {
+			if f := rootFieldOf(e, recv, depth+1); f != "" {
+				return f
+			}
+		}
+	}
+	return ""
+}
+
+// streamOps: calls that move the stream: invokes on the stream parameter and nested encode/decode
+// calls receiving it.
+func streamOps(fn *ssa.Function) []*ssa.Call {
+	var out []*ssa.Call
+	stream := fn.Params[1]
+	for _, b := range fn.Blocks {
+		for _, in := range b.Instrs {
+			cl, ok := in.(*ssa.Call)
+			if !ok {
+				continue
+			}
+			if cl.Call.IsInvoke() && cl.Call.Value == ssa.Value(stream) {
+				if t, known := wireToken(cl.Call.Method.Name()); known && t != "" {
+					out = append(out, cl)
+				}
+				continue
+			}
+			for _, a := range cl.Call.Args {
+				if a == ssa.Value(stream) {
+					out = append(out, cl)
+					break
+				}
+			}
+		}
+	}
+	return out
+}
+
+func encoderFieldOps(fn *ssa.Function) []fieldOp {
+	recv := ssa.Value(fn.Params[0])
+	var out []fieldOp
+	for _, cl := range streamOps(fn) {
+		f := ""
+		if cl.Call.IsInvoke() {
+			for _, a := range cl.Call.Args {
+				if f = rootFieldOf(a, recv, 0); f != "" {
+					break
+				}
+			}
+		} else {
+			for _, a := range cl.Call.Args {
+				if a == ssa.Value(fn.Params[1]) {
+					continue
+				}
+				if f = rootFieldOf(a, recv, 0); f != "" {
+					break
+				}
+			}
+		}
+		if f != "" {
+			out = append(out, fieldOp{f, cl})
+		}
+	}
+	return out
+}
+
+func decoderFieldOps(fn *ssa.Function) []fieldOp {
+	recv := ssa.Value(fn.Params[0])
+	var out []fieldOp
+	derives := func(v ssa.Value, c *ssa.Call) bool {
+		return derivesFrom(v, func(x ssa.Value) bool { return x == ssa.Value(c) }, 0)
+	}
+	for _, cl := range streamOps(fn) {
+		f := ""
+		if !cl.Call.IsInvoke() {
+			// nested decode: the receiver argument is (an element of) a field
+			if len(cl.Call.Args) > 0 {
+				f = rootFieldOf(cl.Call.Args[0], recv, 0)
+			}
+		}
+		if f == "" {
+			// a store into a field of the receiver whose value derives from this call
+			for _, b := range fn.Blocks {
+				for _, in := range b.Instrs {
+					st, ok := in.(*ssa.Store)
+					if !ok || !derives(st.Val, cl) {
+						continue
+					}
+					if g := rootFieldOf(st.Addr, recv, 0); g != "" && f == "" {
+						f = g
+					}
+				}
+			}
+		}
+		if f != "" {
+			out = append(out, fieldOp{f, cl})
+		}
+	}
+	return out
+}
+
+func instrBefore(a, b ssa.Instruction) bool {
+	if a.Block() == b.Block() {
+		for _, in := range a.Block().Instrs {
+			if in == a {
+				return true
+			}
+			if in == b {
+				return false
+			}
+		}
+	}
+	return a.Block().Dominates(b.Block()) && a.Block() != b.Block()
+}
+
+func c09Order(c *Ctx) {
+	p := c.P
+	rule := "C09.order"
+	c.Doc(rule, "field alignment: for any two receiver fields whose stream operations are ordered (by dominance) in both the encoder and the decoder of a type, the order is the same — catches swaps of adjacent fields of the same wire type, which the token language cannot see")
+	c.Floor(rule, 100)
+	for _, pr := range p.encDecPairs() {
+		if _, ex := mirrorExclusions[pr.name]; ex {
+			continue
+		}
+		eo, do := encoderFieldOps(pr.enc), decoderFieldOps(pr.dec)
+		first := func(ops []fieldOp) map[string]ssa.Instruction {
+			m := map[string]ssa.Instruction{}
+			for _, o := range ops {
+				if _, ok := m[o.field]; !ok {
+					m[o.field] = o.in
+				}
+			}
+			return m
+		}
+		ef, df := first(eo), first(do)
+		var fields []string
+		for f := range ef {
+			if _, ok := df[f]; ok {
+				fields = append(fields, f)
+			}
+		}
+		sort.Strings(fields)
+		bad := ""
+		npairs := 0
+		for i := 0; i < len(fields); i++ {
+			for j := i + 1; j < len(fields); j++ {
+				a, b := fields[i], fields[j]
+				eab, eba := instrBefore(ef[a], ef[b]), instrBefore(ef[b], ef[a])
+				dab, dba := instrBefore(df[a], df[b]), instrBefore(df[b], df[a])
+				if (eab || eba) && (dab || dba) {
+					npairs++
+					if eab != dab && bad == "" {
+						x, y := a, b
+						if eba {
+							x, y = b, a
+						}
+						bad = fmt.Sprintf("the encoder writes %s before %s but the decoder reads %s before %s", x, y, y, x)
+					}
+				}
+			}
+		}
+		if len(fields) < 2 {
+			continue
+		}
+		c.Check(bad == "", rule, pr.enc, "order:"+pr.name, nil, fmt.Sprintf("%d fields, %d ordered pairs agree between encode and decode", len(fields), npairs), pr.name+": "+bad+": a round trip swaps the two values", nil)
 	}
 }
